@@ -176,11 +176,18 @@ def run(prog: Program, rep: Report, tier: str):
     rep.rule("R07.2", "forward references dispatch to the lazy proxy first", floor=2)
     rep.rule("R07.3", "no build-time path into the memoised factories", floor=14)
     rep.rule("R07.4", "the proxy resolves lazily through the same-direction factory and delegates", floor=6)
+    rep.rule("R07.7", "the proxy registered under a forward reference is found from the class itself (TypeContext rules, shared with C16)", floor=5)
     rep.rule("R07.6", "the cut's cyclic-capability condition covers every type with members", floor=1)
     rep.rule("R07.5", "every level is converted (no raw member in composite outputs, both directions)", floor=9)
     r07_1(prog, rep)
     r07_6(prog, rep)
     r07_2_4(prog, rep)
     r07_3(prog, rep)
+    from ..report import Report as _R, absorb
+    from . import c16
+
+    sub = _R("C07", tier)
+    c16.run(prog, sub, tier)
+    absorb(rep, sub, {"R16.1": "R07.7", "R16.2": "R07.7", "R16.3": "R07.7"})
     c03.r03_1(prog, rep, direction="unmarshal", rule="R07.5")
     c03.r03_1(prog, rep, direction="marshal", rule="R07.5")
